@@ -26,7 +26,8 @@ T9 = {
     "fileio/write_srec.h": ["write_srec"],
     "fileio/write_bin.cpp": ["write_bin"],
     "fileio/write_bin.h": ["write_bin"],
-    "fileio/write_wdc.cpp": [],
+    "fileio/write_wdc.cpp": ["write_wdc", "write_int24"],
+    "fileio/write_wdc.h": ["write_wdc", "write_int24"],
     "core/Macros.cpp": ["macros_expand_params"],
     "core/tokens.cpp": ["tokens_get", "tokens_unget_char"],
     "main/naken_asm.cpp": ["main", "output_hex_text"],
